@@ -3,6 +3,7 @@ import PtnModel.Proofs.DenseAddMpo
 import PtnModel.Proofs.DenseApply
 import PtnModel.Proofs.DenseIdentity
 import PtnModel.Proofs.DenseMergeMpo
+import PtnModel.Proofs.DenseSplitEx
 import PtnModel.Proofs.DenseExamples
 /-!
 # Property C03 (MPS/MPO arithmetic agrees with dense linear algebra)
@@ -28,7 +29,7 @@ Vocabulary (definitions in `PtnModel/Proofs/DenseDefs.lean`):
 * `flat d s`         : row-major position of basis state `s`.
 -/
 namespace Ptn.C03
-open Ptn.Dense.Ex
+open Ptn.Dense.Ex Ptn.Dense
 
 variable {R : Type} [CommRing R] [DecidableEq R]
 
@@ -157,5 +158,47 @@ theorem as_matrix_elem (o : MPO R) (d : Nat) (ho : MPO.Shaped o d) (m : Mat R) (
 example : MPO.Shaped o0 2 ∧ o0.asMatrix.isOk = true ∧ o0.asMatrix.toOption.map (fun m => m.f 5 3) = some 75 ∧
     flat 2 [1, 0, 1] = 5 ∧ flat 2 [0, 1, 1] = 3 :=
   ⟨shaped_o0, by decide, by decide, by decide, by decide⟩
+
+/-- (g) merging undoes a split, for each of the three ways of distributing the singular values (`distr` = 0 left,
+1 right, 2 sqrt): if `split_mps_tensor` returns `(B0, B1, _)` then `merge_mps_tensor_pair(B0, B1)` has the shape and the
+entries of the input tensor.
+
+PARTIAL: the zero-tolerance exactness of the block-wise SVD split is not derived here from the SVD kernel contract but
+taken as the explicit hypothesis `hrec` about the one call of `split_matrix_svd` made by `split_mps_tensor`:
+its outputs satisfy `Σ_p U[i,p]·σ[p]·V[p,j] = M[i,j]` on in-range entries (true for `tol = 0` when the kernel returns an
+exact SVD of every block; to be supplied from the `split_matrix_svd` facts of C11/C12), and, for `sqrt`,
+`sqrt(σ_p)·sqrt(σ_p) = σ_p` in the entry type on the kept singular values. -/
+theorem split_merge_tol0_partial {ρ : Type} [RealLike ρ R] [OfNat ρ 0] [Add ρ] [Mul ρ] [Div ρ] [LT ρ] [DecidableEq ρ]
+    [DecidableLT ρ] (k : MPS.SvdKernels R ρ) (dsqrt : ρ → ρ) (A : T3 R) (qd0 qd1 qD0 qD2 : List Int) (distr : Nat)
+    (tol : ρ) (B0 B1 : T3 R) (qb : List Int)
+    (h : MPS.splitMpsTensor k dsqrt A qd0 qd1 qD0 qD2 distr tol = .ok (B0, B1, qb))
+    (hrec : ∀ U σ V q, BondOps.splitMatrixSvd k.dsvd k.dnorm k.dargsort (MPS.splitMat A qd0.length qd1.length).tab
+        (QN.flatten2 qd0 qD0) (QN.flatten2 (QN.neg qd1) qD2) tol = .ok (U, σ, V, q) →
+        (distr = 2 → ∀ p < σ.length, (RealLike.ofReal (dsqrt (σ.getD p 0)) : R) * RealLike.ofReal (dsqrt (σ.getD p 0))
+            = RealLike.ofReal (σ.getD p 0)) ∧
+        ∀ i < qd0.length * A.d1, ∀ j < qd1.length * A.d2,
+          ∑ p ∈ Finset.range σ.length, U.f i p * RealLike.ofReal (σ.getD p 0) * V.f p j
+            = (MPS.splitMat A qd0.length qd1.length).f i j) :
+    (MPS.mergePair B0 B1).d0 = A.d0 ∧ (MPS.mergePair B0 B1).d1 = A.d1 ∧ (MPS.mergePair B0 B1).d2 = A.d2 ∧
+    ∀ s < A.d0, ∀ a < A.d1, ∀ c < A.d2, (MPS.mergePair B0 B1).f s a c = A.f s a c :=
+  MPS.split_merge k dsqrt A qd0 qd1 qD0 qD2 distr tol B0 B1 qb h hrec
+
+/-- non-vacuity of `split_merge_tol0_partial`: a two-site tensor over `ℤ` with exact toy kernels (`M = M·diag(1)·I`),
+zero tolerance, all three distribution modes -/
+example (distr : Nat) (hd : distr = 0 ∨ distr = 1 ∨ distr = 2) :
+    (∃ r, MPS.splitMpsTensor SplitEx.k id SplitEx.A [0, 0] [0, 0] [0] [0] distr (0 : Int) = .ok r) ∧
+    ∀ U σ V q, BondOps.splitMatrixSvd SplitEx.k.dsvd SplitEx.k.dnorm SplitEx.k.dargsort
+        (MPS.splitMat SplitEx.A [0, 0].length [0, 0].length).tab (QN.flatten2 [0, 0] [0])
+        (QN.flatten2 (QN.neg [0, 0]) [0]) (0 : Int) = .ok (U, σ, V, q) →
+      (distr = 2 → ∀ p < σ.length, (RealLike.ofReal (id (σ.getD p 0)) : Int) * RealLike.ofReal (id (σ.getD p 0))
+          = RealLike.ofReal (σ.getD p 0)) ∧
+      ∀ i < [0, 0].length * SplitEx.A.d1, ∀ j < [0, 0].length * SplitEx.A.d2,
+        ∑ p ∈ Finset.range σ.length, U.f i p * RealLike.ofReal (σ.getD p 0) * V.f p j
+          = (MPS.splitMat SplitEx.A [0, 0].length [0, 0].length).f i j := by
+  refine ⟨?_, SplitEx.hrec distr⟩
+  rcases hd with rfl | rfl | rfl
+  · exact SplitEx.exists_of_isOk SplitEx.split_isOk.1
+  · exact SplitEx.exists_of_isOk SplitEx.split_isOk.2.1
+  · exact SplitEx.exists_of_isOk SplitEx.split_isOk.2.2
 
 end Ptn.C03
